@@ -407,7 +407,8 @@ func violationOrKnownC02(t *rapid.T, ev *evProp, si *scalarImpl, op string, hist
 const c02Rule = "case = (scalar implementation, program of 1..8 steps over 3 registers from {SetBytes(len 0..96: empty/random/canonical/zero-padded/v+k*q/0xff../short/q/q±d), " +
 	"SetInt64(edge or random int64), Zero, One, Set, Clone, Add, Sub, Neg, Mul, Div, Inv (invertible divisors), Pick(seeded XOF, optionally behind an all-00/all-ff/q+k prefix)}), " +
 	"run in lock-step with math/big; after every step every register must encode (in ByteOrder) exactly the model residue with ScalarLen bytes and Equal must equal residue equality; " +
-	"Pick must be < q, repeatable and reproducible from exactly the bytes it consumed. non-trivial = a SetBytes whose length differs from ScalarLen, an edge int64, an adversarial stream, or a register holding 0, 1 or q-1; distinct = distinct (impl, program text)"
+	"Pick must be < q, repeatable and reproducible from exactly the bytes it consumed. non-trivial = a SetBytes whose length differs from ScalarLen, an edge int64, an adversarial stream, or a register holding 0, 1 or q-1; distinct = distinct (impl, program text)" +
+	" Added: the slice given to SetBytes is overwritten by the caller afterwards."
 
 func TestC02_Programs(t *testing.T) {
 	ev := evFor("C02")
